@@ -2,7 +2,8 @@
    between the tokens of a text without changing the tokens; with the round trip of C15 this gives: every such layout of a
    serialised program parses to that program. *)
 From Coq Require Import NArith ZArith List Bool Lia.
-From MP Require Import Model.Lexer Gen.GenGrammar Model.Parser Model.Serial Proofs.LexProofs Proofs.SerialProofs Proofs.LrComplete Proofs.LexSerial.
+From MP Require Import Model.Lexer Gen.GenGrammar Model.Parser Model.Serial Proofs.LexProofs Proofs.SerialProofs.
+From MP Require Import Proofs.LrComplete Proofs.LexSerial.
 Import ListNotations.
 Close Scope string_scope.
 Open Scope N_scope.
